@@ -749,3 +749,29 @@ package constraint
 //@   ensures !knownRuleName(ruleNameText(lexBytes(ruleNameLex)))
 //@           ==> panics && typeis(pv, errors.DocumentError) && unbox(pv, errors.DocumentError).code == errors.ErrUnknownRule && unbox(pv, errors.DocumentError).index == ruleNameLex.begin && unbox(pv, errors.DocumentError).hasIndex
 //@   ensures panics && typeis(pv, errors.DocumentError) ==> !knownRuleName(ruleNameText(lexBytes(ruleNameLex)))
+
+// C03: allOf names: each a quoted user-type name, kept in source order
+//@ func (*AllOf).Append(scalar)
+//@   props C03
+//@   requires c != nil && len(scalar) <= 1000000000000
+//@   maypanic
+//@   modifies c.schemaName, c.schemaName[*]
+//@   ensures panics <==> !(strLit(scalar) && userTypeName(unqOf(scalar)))
+//@   ensures normal ==> len(c.schemaName) == old(len(c.schemaName)) + 1 && spells(unqOf(scalar), c.schemaName[old(len(c.schemaName))])
+//@   ensures normal ==> (forall j :: 0 <= j && j < old(len(c.schemaName)) ==> c.schemaName[j] == old(c.schemaName[j]))
+//@   ensures c.schemaName.$arr == old(c.schemaName.$arr) || fresh(c.schemaName)
+//@   ensures panics ==> errWF(pv)
+
+// C18: a note after an enum item is attached to THAT item
+//@ func (*Enum).Len()
+//@   props C18
+//@   requires c != nil
+//@   pure
+//@   ensures result == len(c.items)
+//@ func (*Enum).SetComment(idx, comment)
+//@   props C18
+//@   requires c != nil && 0 <= idx && idx < len(c.items)
+//@   nopanic
+//@   modifies c.items[*]
+//@   ensures c.items[idx].comment == comment && c.items[idx].value == old(c.items[idx].value) && c.items[idx].jsonType == old(c.items[idx].jsonType) && c.items[idx].src == old(c.items[idx].src)
+//@   ensures normal ==> (forall j :: 0 <= j && j < len(c.items) && j != idx ==> c.items[j] == old(c.items[j]))
